@@ -65,6 +65,9 @@ Section Basic.
         Ok (freq_diff, b_freq_conf s -. (b_freq_conf s -. fabs (freq_diff -. fone)) *. b_gain s) in
     Ok (-. (fd -. fone) *. b_gain s *. c_0p1 *. c_1e6, fc).
 
+  (* BasicFilter::measurement after fix 3d2d7f9 (F13): no frequency estimate when the
+     master interval is not positive; never hand a non-finite frequency to the clock
+     (the freq_confidence computed in this call is kept in that case) *)
   Definition basic_measurement (s : bstate) (m : meas) : CM (bstate * fupdate) :=
     let md1 := match m_delay m with Some d => Some d | None => None end in
     let ld1 := match m_delay m with Some d => d | None => b_last_delay s end in
@@ -87,16 +90,21 @@ Section Basic.
             match b_last_step s with
             | Some (l_time, l_offset, l_corr) =>
                 let* (d2, d3) := mlift (basic_intervals (m_time m) offset l_time l_offset l_corr) in
-                let* (fcorr, fc) := mlift (basic_freq_corr s d2 d3) in
-                mret (fcorr, fc, b_cur_freq s)
+                if d3 <=? 0 then mret (fzero, b_freq_conf s, b_cur_freq s)
+                else
+                  let* (fcorr, fc) := mlift (basic_freq_corr s d2 d3) in
+                  mret (fcorr, fc, b_cur_freq s)
             | None =>
                 let* _ := mcall (SetFreq fzero) in
                 mret (fzero, b_freq_conf s, fzero)
             end in
           let* _ := mcall (StepClock correction) in
-          let* r := mcall (SetFreq (cur0 +. freq_corr)) in
-          let cur := match r with Some _ => cur0 +. freq_corr | None => cur0 end in
-          mret (mk_bstate (Some (m_time m, offset, correction)) oc fc (b_gain s) cur offset ld, upd)
+          if is_fin (cur0 +. freq_corr) then
+            let* r := mcall (SetFreq (cur0 +. freq_corr)) in
+            let cur := match r with Some _ => cur0 +. freq_corr | None => cur0 end in
+            mret (mk_bstate (Some (m_time m, offset, correction)) oc fc (b_gain s) cur offset ld, upd)
+          else
+            mret (mk_bstate (Some (m_time m, offset, correction)) oc fc (b_gain s) cur0 offset ld, upd)
     end.
 
   Definition basic_estimates (s : bstate) : Z * Z := (b_last_offset s, b_last_delay s).
